@@ -161,6 +161,23 @@ def run(ctx, res):
             nc = rng.choice([1, 2, 3, 4, 5, 6, 8, 12, 25]) if i % 5 == 0 else None
             tabs.append(G.gen_table(rng, ncols=nc, constraints=False, name="t%d_%d" % (i % 50, j), kw_refs=(i % 3 == 0),
                                     kw_names=(i % 4 == 0)))
+        if i % 4 == 3:
+            # look-alike names: a column whose name differs from another column's (preferably a key column's) only in letter case
+            # or quoting is a column of its own, with its own nullability and default
+            for t in tabs:
+                if len(t["cols"]) < 2:
+                    continue
+                keys = [c for c in t["cols"] if any(o[0] == "pk" for o in c["opts"])]
+                src = rng.choice(keys or t["cols"])
+                dst = rng.choice([c for c in t["cols"] if c is not src])
+                base = src["name"].strip('"`[]')
+                variants = [v for v in (base.upper(), base.lower(), base.capitalize(), '"%s"' % base, "[%s]" % base, "`%s`" % base,
+                                        '"%s"' % base.upper(), "[%s]" % base.capitalize())
+                            if v not in {c["name"] for c in t["cols"]} and v.lower() not in G.KW_NAMES and base.lower() not in G.KW_NAMES]
+                if variants:
+                    dst["name"] = rng.choice(variants)
+                    dst["opts"] = [o for o in dst["opts"] if o[0] not in ("pk",)]
+            res.count("names:look_alike")
         if i % 5 == 2:
             # statement-like words as column names, one column per line (each name then starts a line)
             for t in tabs:
